@@ -192,9 +192,12 @@ class Ctx:
         else:
             confirmed = 2
             bundle_files = [trace]
-        if racy and confirmed == 0 and cmd is not None:
-            # a race may need the load of the whole run: execute the complete driver command again (same seed), three times
-            for attempt in range(3):
+        if ((racy and confirmed == 0) or (not racy and confirmed < 2)) and cmd is not None:
+            # a race may need the load of the whole run, and a defect may live in state that the process carries from one
+            # behaviour to the next (a pool, a cache): execute the COMPLETE driver command again (same seed). Racy drivers:
+            # one rejection in three runs confirms; deterministic drivers: the run must be rejected twice in a row
+            full = 0
+            for attempt in range(3 if racy else 2):
                 t2 = os.path.join(self.sc, "%s.reconfirm%d.ndjson" % (name, attempt))
                 c2 = [x for x in cmd]
                 c2[c2.index("--out") + 1] = t2
@@ -203,9 +206,14 @@ class Ctx:
                     raise NoVerdict("re-execution of driver %s failed:\n%s" % (name, p.stdout[-3000:]))
                 r2 = validate_trace(self.sc, module, os.path.basename(t2), deviations=[k["deviation"] for k in kf], timeout=timeout)
                 if not r2["accepted"]:
-                    confirmed = 1
+                    full += 1
                     bundle_files = [t2]
+                    if racy:
+                        break
+                elif not racy:
                     break
+            if (racy and full >= 1) or (not racy and full >= 2):
+                confirmed = 2
         if racy and confirmed >= 1:
             confirmed = 2
         if confirmed < 2:
@@ -599,7 +607,7 @@ def c17(ctx):
     cases = ctx.design("MC_Access", "MC_Access.cfg", workers=1)
     ctx.notes["distinct_nontrivial"] = len(set(cases))
     ctx.notes["rule"] = "one case per class of MC_Access: (service, method incl. server- and client-streaming, token configured?, presented credential, leader/follower) and (server TLS options, client certificate)"
-    ctx.gv("access-cases", "Trace_Access", ["access"], inputs=cases)
+    ctx.gv("access-cases", "Trace_Access", ["access"], inputs=cases, racy=True)
 
 
 @check("C18")
@@ -611,5 +619,9 @@ def c18(ctx):
     ctx.design("Stream", "MC_Stream.cfg")
     n = 12 if q else 150
     ctx.notes["rule"] = "framing behaviours: 1-400 records of 0 B..300 KB (sizes around the 64 KiB snappy block), file read-back and real gRPC shipping with chunk limits 1..1 MiB and each registered compressor; codec: 12 message shapes x 3 rounds + 200 recycled-object marshals; compressors: 32 goroutines x rounds per compressor"
-    ctx.gv("framing-codec-compressors", "Trace_Stream", ["stream", "--seed", str(seed()), "--n", str(n), "--rounds", str(60 if q else 600)], racy=True)
+    if not ctx.gv("framing-codec-compressors", "Trace_Stream", ["stream", "--seed", str(seed()), "--n", str(n), "--rounds", str(60 if q else 600)], racy=True):
+        return
+    # commands as they leave the leader on the replication stream (real engine, real LogServer): each IS the logged one
+    # (type, key, presence and value of the range end, own label) - also after range deletes went through the same objects
+    ctx.gv("replicated-commands", "Trace_LogReader", ["logengine", "--seed", str(seed() + 11), "--n", str(3 if q else 40)])
     ctx.notes["distinct_nontrivial"] = max(2, ctx.events)
